@@ -22,14 +22,14 @@ end
 /-- all six traversals of a list of boxes only mention ids satisfying `P` -/
 structure OutClean (P : Nat → Prop) (cs : List Box) : Prop where
   parts : ∀ p ∈ participants cs, ∀ e ∈ p.2, P e.1
-  blocks : ∀ x ∈ flowBlocks cs, P x
+  blocks : ∀ l ∈ flowBlocks cs, ∀ e ∈ l, P e.1
   floats : ∀ f ∈ floatsOf cs, ∀ e ∈ f, P e.1
   lines : ∀ l ∈ flowLines cs, ∀ e ∈ l, P e.1
   inflow : ∀ x ∈ flowAll cs, P x
   inl : ∀ e ∈ inlineOf cs, P e.1
 
 theorem OutClean.mono {P Q : Nat → Prop} {cs : List Box} (h : OutClean P cs) (hpq : ∀ x, P x → Q x) : OutClean Q cs :=
-  ⟨fun p hp e he => hpq _ (h.parts p hp e he), fun x hx => hpq _ (h.blocks x hx), fun f hf e he => hpq _ (h.floats f hf e he),
+  ⟨fun p hp e he => hpq _ (h.parts p hp e he), fun l hl e he => hpq _ (h.blocks l hl e he), fun f hf e he => hpq _ (h.floats f hf e he),
    fun l hl e he => hpq _ (h.lines l hl e he), fun x hx => hpq _ (h.inflow x hx), fun e he => hpq _ (h.inl e he)⟩
 
 theorem mem_sortZ {x : CCtx} {l : List CCtx} : x ∈ sortZ l ↔ x ∈ l := by
@@ -41,9 +41,9 @@ theorem mem_sortZ {x : CCtx} {l : List CCtx} : x ∈ sortZ l ↔ x ∈ l := by
     simp [ih]
 
 /-- every event of `layers` comes from one of its inputs or is an event of the box itself -/
-theorem layers_mem {id : Nat} {pr : BProps} {parts : List CCtx} {blocks : List Nat} {floats lines : List (List PEv)}
+theorem layers_mem {id : Nat} {pr : BProps} {parts : List CCtx} {blocks : List (List PEv)} {floats lines : List (List PEv)}
     {inflow : List Nat} {e : PEv} (he : e ∈ layers id pr parts blocks floats lines inflow) :
-    e.1 = id ∨ (∃ p ∈ parts, e ∈ p.2) ∨ e.1 ∈ blocks ∨ (∃ f ∈ floats, e ∈ f) ∨ (∃ l ∈ lines, e ∈ l) ∨ e.1 ∈ inflow := by
+    e.1 = id ∨ (∃ p ∈ parts, e ∈ p.2) ∨ (∃ bl ∈ blocks, e ∈ bl) ∨ (∃ f ∈ floats, e ∈ f) ∨ (∃ l ∈ lines, e ∈ l) ∨ e.1 ∈ inflow := by
   simp only [layers, List.mem_append, List.mem_flatMap, List.mem_flatten, List.mem_map, List.mem_cons] at he
   rcases he with ((((((((((((h | h) | h) | h) | h) | h) | h) | h) | h) | h) | h) | h) | h) | h
   · split at h <;> simp at h; exact Or.inl (by rw [h])
@@ -53,8 +53,7 @@ theorem layers_mem {id : Nat} {pr : BProps} {parts : List CCtx} {blocks : List N
   · obtain ⟨p, hp, hep⟩ := h
     exact Or.inr (Or.inl ⟨p, (List.mem_filter.mp (mem_sortZ.mp hp)).1, hep⟩)
   · obtain ⟨x, hx, hex⟩ := h
-    simp at hex
-    rcases hex with hex | hex <;> exact Or.inr (Or.inr (Or.inl (by rw [hex]; exact hx)))
+    exact Or.inr (Or.inr (Or.inl ⟨x, hx, hex⟩))
   · obtain ⟨f, hf, hef⟩ := h
     exact Or.inr (Or.inr (Or.inr (Or.inl ⟨f, hf, hef⟩)))
   · obtain ⟨l, hl, hel⟩ := h
@@ -73,15 +72,15 @@ theorem layers_mem {id : Nat} {pr : BProps} {parts : List CCtx} {blocks : List N
 
 /-- what a (pseudo-)context paints only mentions its box and what its inputs mention -/
 theorem layers_clean' {P : Nat → Prop} {id : Nat} {pr : BProps} (hid : P id)
-    (parts : List CCtx) (blocks : List Nat) (floats lines : List (List PEv)) (inflow : List Nat)
-    (hparts : ∀ p ∈ parts, ∀ e ∈ p.2, P e.1) (hblocks : ∀ x ∈ blocks, P x) (hfloats : ∀ f ∈ floats, ∀ e ∈ f, P e.1)
+    (parts : List CCtx) (blocks : List (List PEv)) (floats lines : List (List PEv)) (inflow : List Nat)
+    (hparts : ∀ p ∈ parts, ∀ e ∈ p.2, P e.1) (hblocks : ∀ l ∈ blocks, ∀ e ∈ l, P e.1) (hfloats : ∀ f ∈ floats, ∀ e ∈ f, P e.1)
     (hlines : ∀ l ∈ lines, ∀ e ∈ l, P e.1) (hinflow : ∀ x ∈ inflow, P x) :
     ∀ e ∈ layers id pr parts blocks floats lines inflow, P e.1 := by
   intro e he
-  rcases layers_mem he with h1 | ⟨p, hp, hep⟩ | h1 | ⟨f, hf, hef⟩ | ⟨l, hl, hel⟩ | h1
+  rcases layers_mem he with h1 | ⟨p, hp, hep⟩ | ⟨bl, hbl, hebl⟩ | ⟨f, hf, hef⟩ | ⟨l, hl, hel⟩ | h1
   · rw [h1]; exact hid
   · exact hparts p hp e hep
-  · exact hblocks _ h1
+  · exact hblocks bl hbl e hebl
   · exact hfloats f hf e hef
   · exact hlines l hl e hel
   · exact hinflow _ h1
@@ -113,6 +112,46 @@ theorem specPseudo_clean {P : Nat → Prop} {id : Nat} {pr : BProps} {children :
     (h : OutClean P children) : ∀ e ∈ specPseudo (.mk id pr children), P e.1 := by
   simp only [specPseudo]
   exact layers_clean hid h [] (by simp)
+
+mutual
+  /-- the cells a table paints are in-flow descendants -/
+  theorem cells_sub_flowAll1 : ∀ (b : Box), ∀ x ∈ cellsOf b, x ∈ flowAll [b]
+    | .mk id pr children, x, hx => by
+      by_cases hf : pr.inFlow = true
+      · simp only [cellsOf, hf, Bool.not_true, Bool.false_eq_true, if_false] at hx
+        simp only [flowAll, hf, if_true, List.append_nil, List.mem_cons]
+        by_cases hc : pr.tableCell = true
+        · simp [hc] at hx; exact Or.inl hx
+        · have hc' : pr.tableCell = false := by simpa using hc
+          simp only [hc', Bool.false_eq_true, if_false] at hx
+          exact Or.inr (cells_sub_flowAll children x hx)
+      · have hf' : pr.inFlow = false := by simpa using hf
+        simp [cellsOf, hf'] at hx
+  theorem cells_sub_flowAll : ∀ (cs : List Box), ∀ x ∈ cellsOfL cs, x ∈ flowAll cs
+    | [], x, hx => by simp [cellsOfL] at hx
+    | b :: rest, x, hx => by
+      simp only [cellsOfL, List.mem_append] at hx
+      rw [flowAll_cons_nil, List.mem_append]
+      rcases hx with hx | hx
+      · exact Or.inl (cells_sub_flowAll1 b x hx)
+      · exact Or.inr (cells_sub_flowAll rest x hx)
+end
+
+theorem blockPaint_clean {P : Nat → Prop} (id : Nat) (pr : BProps) (children : List Box) (hid : P id)
+    (hin : ∀ x ∈ flowAll children, P x) : ∀ e ∈ blockPaint id pr children, P e.1 := by
+  intro e he
+  simp only [blockPaint] at he
+  split at he
+  · simp only [List.mem_cons, List.mem_append, List.mem_map] at he
+    rcases he with he | he
+    · rcases he with he | ⟨c, hc, he⟩
+      · rw [he]; exact hid
+      · rw [← he]; exact hin c (cells_sub_flowAll children c hc)
+    · rcases he with he | ⟨c, hc, he⟩
+      · rw [he]; exact hid
+      · rw [← he]; exact hin c (cells_sub_flowAll children c hc)
+  · simp at he
+    rcases he with he | he <;> (rw [he]; exact hid)
 
 /-- the traversals of a single box, from those of its children -/
 theorem outClean_single {P : Nat → Prop} (id : Nat) (pr : BProps) (children : List Box) (hid : P id)
@@ -247,9 +286,9 @@ theorem flatMap_mem_of_sub {L S : List CCtx} (hsub : ∀ y ∈ L, y ∈ S) {e : 
 
 /-- if the events of the box itself, of the other participants, and of the other layers all satisfy `Q`, then
     what the context paints is `A ++ (the events of that participant) ++ B` with `A` and `B` satisfying `Q` -/
-theorem layers_seg {Q : Nat → Prop} (id : Nat) (pr : BProps) (P1 P2 : List CCtx) (part : CCtx) (blocks : List Nat)
+theorem layers_seg {Q : Nat → Prop} (id : Nat) (pr : BProps) (P1 P2 : List CCtx) (part : CCtx) (blocks : List (List PEv))
     (floats lines : List (List PEv)) (inflow : List Nat)
-    (hid : Q id) (hparts : ∀ p ∈ P1 ++ P2, ∀ e ∈ p.2, Q e.1) (hblocks : ∀ x ∈ blocks, Q x)
+    (hid : Q id) (hparts : ∀ p ∈ P1 ++ P2, ∀ e ∈ p.2, Q e.1) (hblocks : ∀ l ∈ blocks, ∀ e ∈ l, Q e.1)
     (hfloats : ∀ f ∈ floats, ∀ e ∈ f, Q e.1) (hlines : ∀ l ∈ lines, ∀ e ∈ l, Q e.1) (hinflow : ∀ x ∈ inflow, Q x) :
     ∃ A B, layers id pr (P1 ++ part :: P2) blocks floats lines inflow = A ++ part.2 ++ B
       ∧ (∀ e ∈ A, Q e.1) ∧ (∀ e ∈ B, Q e.1) := by
@@ -258,7 +297,7 @@ theorem layers_seg {Q : Nat → Prop} (id : Nat) (pr : BProps) (P1 P2 : List CCt
     ++ (if pr.transform then [(id, Layer.xformOpen)] else [])
     ++ (if pr.blockLevel || pr.inlineBlock then [(id, Layer.background), (id, Layer.border)] else [])
     ++ (if pr.overflow then [(id, Layer.clipOpen)] else [])
-  let M : List PEv := (blocks.flatMap fun b => [(b, Layer.background), (b, Layer.border)]) ++ floats.flatten ++ lines.flatten
+  let M : List PEv := blocks.flatten ++ floats.flatten ++ lines.flatten
   let T : List PEv := (if pr.overflow then [(id, Layer.clipClose)] else [])
     ++ ((id :: inflow).map fun b => (b, Layer.outline))
     ++ (if pr.transform then [(id, Layer.xformClose)] else [])
@@ -273,10 +312,9 @@ theorem layers_seg {Q : Nat → Prop} (id : Nat) (pr : BProps) (P1 P2 : List CCt
     · rw [he]; exact hid
   have hM : ∀ e ∈ M, Q e.1 := by
     intro e he
-    simp only [M, List.mem_append, List.mem_flatMap, List.mem_flatten] at he
+    simp only [M, List.mem_append, List.mem_flatten] at he
     rcases he with (⟨x, hx, hex⟩ | ⟨f, hf, hef⟩) | ⟨l, hl, hel⟩
-    · simp at hex
-      rcases hex with hex | hex <;> (rw [hex]; exact hblocks x hx)
+    · exact hblocks x hx e hex
     · exact hfloats f hf e hef
     · exact hlines l hl e hel
   have hT : ∀ e ∈ T, Q e.1 := by
